@@ -528,7 +528,15 @@ class Prop(fw.PropBase):
                     cur = self.gen_lib(wild=False)
                 else:
                     cur = first
-            runs = [self.resched(cur, r) for r in rng.sample(cur['runs'], 2)]
+            runs = []
+            for r in rng.sample(cur['runs'], 2):
+                # the calls of one history differ in the parameters that change the correct KEY SET (bin size, filter,
+                # key tags), so anything carried over from an earlier call shows up as a stale / missing entry
+                r = dict(r, b=rng.choice([r['b'], r['b'], 2 * r['b'], 3 * r['b'] + 1, max(1, r['b'] // 2), 7]),
+                         min_mq=rng.choice([r['min_mq'], None, 0, 30, 50, 61]), dedup=rng.choice([r['dedup'], True, False]),
+                         ignore_mp=rng.choice([r['ignore_mp'], True, False]), key_tags=rng.choice([r['key_tags'], True, False]),
+                         mfs=rng.choice([r['mfs'], r['mfs'] + 7, 1000]), k=rng.choice([r['k'], 1, 2, 3, 7]))
+                runs.append(self.resched(cur, r))
             hist.append({'contigs': cur['contigs'], 'reads': cur['reads'], 'runs': runs, 'rewrite': rewrite, 'wild': False})
         return hist
 
@@ -623,11 +631,31 @@ class Prop(fw.PropBase):
         for i in range(n):
             hs[i::n] = rs[i]['histories']
         res['histories'] = hs
+        self.sessions = []
+        for i in range(n):
+            sess = []
+            for lib, lr in zip(parts[i]['libs'], rs[i]['libs']):
+                for run, rr in zip(lib['runs'], lr.get('runs', [])):
+                    sess.append((lib, run, rr))
+            for hist, hr in zip(parts[i]['histories'], rs[i]['histories']):
+                for st, sr in zip(hist, hr):
+                    for run, rr in zip(st['runs'], sr.get('runs', [])):
+                        sess.append((st, run, rr))
+            self.sessions.append(sess)
         self.payload, self.impl_res = payload, res
         return payload, res
 
     # ---------------------------------------------------------------- K
     def correspondence(self):
+        try:
+            self._correspondence()
+        except fw.Broken:
+            raise
+        except Exception as e:
+            import traceback
+            raise fw.Broken('harness', 'correspondence harness raised %r\n%s' % (e, traceback.format_exc()[-1500:]))
+
+    def _correspondence(self):
         payload, res = self.run_impl_all()
         libs = payload['libs']
         flat = []        # (lib, run, impl result)
@@ -683,7 +711,8 @@ class Prop(fw.PropBase):
             'job_kernel_cases': len(payload['jobs']), 'filter_kernel_cases': len(payload['filters']),
             'merge_kernel_cases': len(payload['merges']), 'region_cases': len(payload['regions']),
             'samples': [{'run': {k: v for k, v in flat[i][1].items() if k != 'sched'}, 'contigs': flat[i][0]['contigs'],
-                         'n_reads': len(flat[i][0]['reads']), 'impl_cells': flat[i][2].get('cells', flat[i][2])[:6]}
+                         'n_reads': len(flat[i][0]['reads']),
+                         'impl_cells': flat[i][2]['cells'][:6] if 'cells' in flat[i][2] else flat[i][2]}
                         for i in (0, len(flat) // 2, len(flat) - 8)],
             'exhaustive': False,
             'site_sweep_libraries': sum(1 for l in libs if l.get('sweep')),
@@ -829,48 +858,22 @@ def _search(self):
     if getattr(self, 'impl_res', None) is None:
         self.run_impl_all()
     payload, res = self.payload, self.impl_res
-    # 1. the matrix
-    bad = []
-    for lib, lr in zip(payload['libs'], res['libs']):
-        for run, rr in zip(lib['runs'], lr.get('runs', [])):
-            if not py_pre(lib, run):
+    # 1. the matrix, call by call, in the order each implementation process made the calls (its "session"): every
+    #    count must be the declarative matrix of the BAM as it is at that moment.  A failing call is re-run ALONE in a
+    #    fresh process; if it is only wrong after earlier calls, the witness is the shortest verified history.
+    worst = None
+    for sess in self.sessions:
+        for n, (content, run, rr) in enumerate(sess):
+            if not py_pre(content, run):
                 continue
-            exp = py_spec(lib, run)
-            got = canon_cells(lib, run, rr['cells']) if 'cells' in rr else None
-            if got != exp:
-                bad.append((len(lib['reads']) + len(rr.get('jobs', [])), lib, run, rr))
-    if bad:
-        bad.sort(key=lambda t: t[0])
-        _, lib, run, rr = bad[0]
-        lib, run, rr = self.shrink(lib, run, rr)
-        exp = py_spec(lib, run)
-        got = canon_cells(lib, run, rr['cells']) if 'cells' in rr else None
-        diff = sorted(set((got or {}).items()) ^ set(exp.items()))[:6]
-        self.witnesses.append({
-            'key': 'matrix:%s' % ('error' if 'error' in rr else 'cells'),
-            'what': 'obtain_counts(generate_commands(bin_size=%d, bins_per_job=%d, max_fragment_size=%d)) on %d records: %s'
-                    % (run['b'], run['k'], run['mfs'], len(lib['reads']),
-                       rr.get('error') or 'cells (key, contig, bin_start, bin_end, sample) -> n differ from the count of passing records: %r' % (diff,)),
-            'input': {'contigs': lib['contigs'], 'reads': lib['reads'], 'run': run},
-            'impl': rr.get('error') or sorted((got or {}).items()), 'expected': sorted(exp.items())})
-    # 1b. histories: every count must be the declarative matrix of the BAM as it is at that moment
-    hbad = None
-    for hist, hr in zip(payload.get('histories', []), res.get('histories', [])):
-        for si, (step, sr) in enumerate(zip(hist, hr)):
-            for ri, (run, rr) in enumerate(zip(step['runs'], sr.get('runs', []))):
-                if not py_pre(step, run):
-                    continue
-                got = canon_cells(step, run, rr['cells']) if 'cells' in rr else None
-                if got != py_spec(step, run):
-                    size = sum(len(x['reads']) for x in hist[:si + 1])
-                    if hbad is None or size < hbad[0]:
-                        hbad = (size, hist, si, ri)
-                    break
-            else:
-                continue
-            break
-    if hbad:
-        self.witnesses.append(self.history_witness(*hbad[1:]))
+            got = canon_cells(content, run, rr['cells']) if 'cells' in rr else None
+            if got != py_spec(content, run):
+                size = (n, len(content['reads']))
+                if worst is None or size < worst[0]:
+                    worst = (size, sess, n)
+                break
+    if worst:
+        self.witnesses.append(self.call_witness(worst[1], worst[2]))
     # 2. job lists
     best = None
     for (lens, b, k), rj in zip(payload['jobs'], res['jobs']):
@@ -937,45 +940,73 @@ def _shrink(self, lib, run, rr):
     return {k: v for k, v in lib.items() if k != 'runs'}, run, rr
 
 
-def _history_witness(self, hist, si, ri):
-    """shrink a failing history: keep the failing step (one run) and the fewest earlier steps (one run each) that still
-    make it fail when replayed in one fresh process; then say whether the same BAM counted in a fresh process is right"""
-    def strip(step, runs):
-        return {'contigs': step['contigs'], 'reads': step['reads'], 'runs': runs, 'rewrite': True}
+def _verify(hist):
+    """replay a history (one call per step, one path) in a FRESH process; does the last call differ from the
+    declarative count of its own BAM?"""
+    out = fw.run_impl('impl_c12.py', {'histories': [hist]})['histories'][0]
+    step, sr = hist[-1], out[-1]
+    rr = sr['runs'][0] if 'runs' in sr else sr
+    got = canon_cells(step, step['runs'][0], rr['cells']) if 'cells' in rr else None
+    return got != py_spec(step, step['runs'][0]), rr
 
-    def fails(h):
-        out = fw.run_impl('impl_c12.py', {'histories': [h]})['histories'][0]
-        step, sr = h[-1], out[-1]
-        rr = sr['runs'][0] if 'runs' in sr else sr
-        got = canon_cells(step, step['runs'][0], rr['cells']) if 'cells' in rr else None
-        return got != py_spec(step, step['runs'][0]), rr
-    # materialise rewrite=False steps (content of the previous step)
-    last = strip(hist[si], [hist[si]['runs'][ri]])
-    prefix = [strip(x, x['runs'][:1]) for x in hist[:si]] + ([strip(hist[si], hist[si]['runs'][:ri])] if ri else [])
-    full = prefix + [last]
-    bad, rr = fails(full)
-    best, best_rr = full, rr
-    if bad:
-        alone, rr_alone = fails([last])
-        if alone:
-            best, best_rr = [last], rr_alone
-        else:
-            for j in range(len(prefix) - 1, -1, -1):          # one earlier step is usually enough
-                b2, rr2 = fails([prefix[j], last])
-                if b2:
-                    best, best_rr = [prefix[j], last], rr2
-                    break
-    step, run = best[-1], best[-1]['runs'][0]
-    exp = py_spec(step, run)
-    got = canon_cells(step, run, best_rr['cells']) if 'cells' in best_rr else None
+
+def _call_witness(self, sess, n):
+    from concurrent.futures import ThreadPoolExecutor
+
+    def step(content, run):
+        return {'contigs': content['contigs'], 'reads': content['reads'], 'runs': [dict(run)], 'rewrite': True}
+    content, run, rr0 = sess[n]
+    last = step(content, run)
+    alone, rr = _verify([last])
+    if alone:
+        lib, run2, rr2 = self.shrink({'contigs': content['contigs'], 'reads': content['reads']}, run, rr)
+        ok2, rr3 = _verify([step(lib, run2)])
+        if not ok2:
+            lib, run2, rr3 = content, run, rr
+        exp = py_spec(lib, run2)
+        got = canon_cells(lib, run2, rr3['cells']) if 'cells' in rr3 else None
+        diff = sorted(set((got or {}).items()) ^ set(exp.items()))[:6]
+        return {'key': 'matrix:%s' % ('error' if 'error' in rr3 else 'cells'),
+                'what': 'obtain_counts(generate_commands(bin_size=%d, bins_per_job=%d, max_fragment_size=%d, min_mq=%r)) on %d records: %s'
+                        % (run2['b'], run2['k'], run2['mfs'], run2['min_mq'], len(lib['reads']),
+                           rr3.get('error') or 'cells (key, contig, bin_start, bin_end, sample) -> n differ from the count of passing records: %r' % (diff,)),
+                'input': {'contigs': lib['contigs'], 'reads': lib['reads'], 'run': run2},
+                'impl': rr3.get('error') or sorted((got or {}).items()), 'expected': sorted(exp.items())}
+    # correct when counted alone: it depends on the calls made before it in the same process
+    best, best_rr = None, None
+    js = list(range(n - 1, max(-1, n - 17), -1))
+    if js:
+        with ThreadPoolExecutor(4) as ex:
+            outs = list(ex.map(lambda j: _verify([step(sess[j][0], sess[j][1]), last]), js))
+        for j, (bad, rrj) in zip(js, outs):
+            if bad:
+                best, best_rr = [step(sess[j][0], sess[j][1]), last], rrj
+                break
+    if best is None:
+        full = [step(c, r) for c, r, _ in sess[max(0, n - 40):n]] + [last]
+        bad, rrf = _verify(full)
+        best, best_rr = full, rrf
+        if not bad:
+            return {'key': 'history:unreproduced',
+                    'what': 'call %d of one implementation process (bin_size=%d, bins_per_job=%d) differed from the declarative count of its BAM, '
+                            'but neither the call alone nor the last 40 calls before it reproduce it in a fresh process' % (n, run['b'], run['k']),
+                    'input': {'history': full[-3:]}, 'impl': rr0.get('error') or rr0.get('cells'), 'expected': sorted(py_spec(content, run).items())}
+    st, rn = best[-1], best[-1]['runs'][0]
+    exp = py_spec(st, rn)
+    got = canon_cells(st, rn, best_rr['cells']) if 'cells' in best_rr else None
     diff = sorted(set((got or {}).items()) ^ set(exp.items()))[:6]
-    return {'key': 'history:%s' % ('stale' if len(best) > 1 else 'cells'),
-            'what': 'one process, one path: %s; the last count (bin_size=%d, bins_per_job=%d, threads=%d) gives total %s but the BAM on disk '
-                    'holds %d countable records; differing cells: %r%s'
-                    % (' then '.join('BAM with contigs %r counted (bins_per_job=%s)' % (x['contigs'], [r['k'] for r in x['runs']]) for x in best),
-                       run['b'], run['k'], run['threads'], sum((got or {}).values()) if got is not None else best_rr.get('error'),
-                       sum(exp.values()), diff,
-                       '' if len(best) == 1 else ' (the same BAM counted alone in a fresh process is correct: the result depends on what was counted before)'),
+
+    def desc(x):
+        r = x['runs'][0]
+        return 'BAM with contigs %r (%d records) counted with bin_size=%d bins_per_job=%d min_mq=%r key_tags=%r dedup=%r' % (
+            x['contigs'], len(x['reads']), r['b'], r['k'], r['min_mq'], r['key_tags'], r['dedup'])
+    return {'key': 'history:stale',
+            'what': 'one process, one path: %s; the LAST count gives %s but the BAM on disk holds %d countable records in %d cells; differing '
+                    'cells (key, contig, bin_start, bin_end, sample) -> n: %r (the last call alone in a fresh process is correct: the result '
+                    'depends on what was counted before)'
+                    % (' THEN '.join(desc(x) for x in best[-3:]) + ('' if len(best) <= 3 else ' (after %d earlier calls)' % (len(best) - 3)),
+                       ('total %d in %d cells' % (sum(got.values()), len(got))) if got is not None else best_rr.get('error'),
+                       sum(exp.values()), len(exp), diff),
             'input': {'history': best}, 'impl': best_rr.get('error') or sorted((got or {}).items()), 'expected': sorted(exp.items())}
 
 
@@ -997,5 +1028,5 @@ def _replay_known(self, finding):
 
 Prop.search = _search
 Prop.shrink = _shrink
-Prop.history_witness = _history_witness
+Prop.call_witness = _call_witness
 Prop.replay_known = _replay_known
